@@ -347,6 +347,13 @@ Inductive fault :=
 | FOpenErr                 (* inner GetPart returns an error *)
 | FStoreFail (j : nat).    (* the cache persistor's Store of the miss fill fails after >= j bytes *)
 
+(* the inner part store: the harness's in-memory double (no transactions), the real filesystem part store (a
+   transaction's writes become visible to everybody at its commit: temp file + rename in the pre-commit hook) or the
+   real SQL part store (a transaction's writes are visible inside that transaction at once, to others at commit) *)
+Inductive ikind := IDouble | IFs | ISql.
+(* what an open write transaction has done so far, in order *)
+Inductive txop := TxPut (id v : bytes) | TxDel (id : bytes).
+
 Record world := {
   w_c : cst;
   w_handles : list (nat * handle);
@@ -354,31 +361,53 @@ Record world := {
   w_inner : list (bytes * bytes);
   w_hints : list bytes;
   w_maxpart : nat;
-  w_nextsid : nat
+  w_nextsid : nat;
+  w_ikind : ikind;
+  w_tx : option (list txop)       (* the open write transaction (SQLite admits one at a time) *)
 }.
 
-Definition w_init (kd : pkind) (pl : policy) (maxpart : nat) : world :=
+Definition w_init_i (kd : pkind) (pl : policy) (maxpart : nat) (ik : ikind) : world :=
   {| w_c := c_init kd pl; w_handles := []; w_sets := []; w_inner := []; w_hints := [];
-     w_maxpart := maxpart; w_nextsid := 1000 |}.
+     w_maxpart := maxpart; w_nextsid := 1000; w_ikind := ik; w_tx := None |}.
+Definition w_init (kd : pkind) (pl : policy) (maxpart : nat) : world := w_init_i kd pl maxpart IDouble.
 
 Definition set_c (c : cst) (w : world) : world :=
   {| w_c := c; w_handles := w_handles w; w_sets := w_sets w; w_inner := w_inner w; w_hints := w_hints w;
-     w_maxpart := w_maxpart w; w_nextsid := w_nextsid w |}.
+     w_maxpart := w_maxpart w; w_nextsid := w_nextsid w; w_ikind := w_ikind w; w_tx := w_tx w |}.
 Definition set_handles (h : list (nat * handle)) (w : world) : world :=
   {| w_c := w_c w; w_handles := h; w_sets := w_sets w; w_inner := w_inner w; w_hints := w_hints w;
-     w_maxpart := w_maxpart w; w_nextsid := w_nextsid w |}.
+     w_maxpart := w_maxpart w; w_nextsid := w_nextsid w; w_ikind := w_ikind w; w_tx := w_tx w |}.
 Definition set_sets (s : list (nat * pending)) (w : world) : world :=
   {| w_c := w_c w; w_handles := w_handles w; w_sets := s; w_inner := w_inner w; w_hints := w_hints w;
-     w_maxpart := w_maxpart w; w_nextsid := w_nextsid w |}.
+     w_maxpart := w_maxpart w; w_nextsid := w_nextsid w; w_ikind := w_ikind w; w_tx := w_tx w |}.
 Definition set_inner (i : list (bytes * bytes)) (w : world) : world :=
   {| w_c := w_c w; w_handles := w_handles w; w_sets := w_sets w; w_inner := i; w_hints := w_hints w;
-     w_maxpart := w_maxpart w; w_nextsid := w_nextsid w |}.
+     w_maxpart := w_maxpart w; w_nextsid := w_nextsid w; w_ikind := w_ikind w; w_tx := w_tx w |}.
 Definition set_hints (h : list bytes) (w : world) : world :=
   {| w_c := w_c w; w_handles := w_handles w; w_sets := w_sets w; w_inner := w_inner w; w_hints := h;
-     w_maxpart := w_maxpart w; w_nextsid := w_nextsid w |}.
+     w_maxpart := w_maxpart w; w_nextsid := w_nextsid w; w_ikind := w_ikind w; w_tx := w_tx w |}.
 Definition bump_sid (w : world) : world :=
   {| w_c := w_c w; w_handles := w_handles w; w_sets := w_sets w; w_inner := w_inner w; w_hints := w_hints w;
-     w_maxpart := w_maxpart w; w_nextsid := S (w_nextsid w) |}.
+     w_maxpart := w_maxpart w; w_nextsid := S (w_nextsid w); w_ikind := w_ikind w; w_tx := w_tx w |}.
+
+Definition set_tx (t : option (list txop)) (w : world) : world :=
+  {| w_c := w_c w; w_handles := w_handles w; w_sets := w_sets w; w_inner := w_inner w; w_hints := w_hints w;
+     w_maxpart := w_maxpart w; w_nextsid := w_nextsid w; w_ikind := w_ikind w; w_tx := t |}.
+
+(* the inner store's content after a transaction's operations *)
+Fixpoint apply_txops (ops : list txop) (m : list (bytes * bytes)) : list (bytes * bytes) :=
+  match ops with
+  | [] => m
+  | TxPut id v :: rest => apply_txops rest (aset id v m)
+  | TxDel id :: rest => apply_txops rest (aremove id m)
+  end.
+(* what a reader sees: a reader inside the open write transaction of the SQL store sees that transaction's writes;
+   everybody else (and every reader of the filesystem store) sees the committed content *)
+Definition inner_view (intx : bool) (w : world) : list (bytes * bytes) :=
+  match w_ikind w, w_tx w with
+  | ISql, Some ops => if intx then apply_txops ops (w_inner w) else w_inner w
+  | _, _ => w_inner w
+  end.
 
 Definition mark_hint (k : bytes) (w : world) : world :=
   set_hints (if mem_bytes k (w_hints w) then w_hints w else k :: w_hints w) w.
@@ -421,7 +450,15 @@ Inductive op :=
 | PGetClose (id : bytes) (n : nat)       (* GetPart, read n bytes, Close early *)
 | PPutFail (id v : bytes)                (* the inner store's PutPart fails *)
 | PDeleteFail (id : bytes)               (* the inner store's DeletePart fails *)
-| PPutStoreFail (id v : bytes) (j : nat). (* PutPart whose cache Set fails in the persistor after >= j bytes *)
+| PPutStoreFail (id v : bytes) (j : nat)  (* PutPart whose cache Set fails in the persistor after >= j bytes *)
+(* real inner stores: mutations inside a write transaction *)
+| TBegin
+| TPutTx (id v : bytes)                  (* PutPart(tx) *)
+| TDelTx (id : bytes)                    (* DeletePart(tx) *)
+| TCommit                                (* pre-commit hooks, database commit, after-commit hooks in registration order *)
+| TRollback
+| PGetTx (id : bytes)                    (* GetPart inside the open write transaction + ReadAll + Close *)
+| PGetCloseTx (id : bytes) (n : nat).    (* ... read n bytes, Close early *)
 
 (* ---- streaming fill of the part store: what the goroutine does when Set returns ---- *)
 Definition fill_fail (sid : nat) (oversize : bool) (w : world) : world :=
@@ -523,7 +560,7 @@ Definition h_close (hd : handle) (w : world) : world :=
   end.
 
 (* GetPart: the common part of POpen / POpenF *)
-Definition part_open (h : nat) (id : bytes) (f : fault) (w : world) : option (res * world) :=
+Definition part_open_in (intx : bool) (h : nat) (id : bytes) (f : fault) (w : world) : option (res * world) :=
   match nlookup h (w_handles w) with
   | Some _ => Some (RBad, w)
   | None =>
@@ -535,7 +572,7 @@ Definition part_open (h : nat) (id : bytes) (f : fault) (w : world) : option (re
           match f with
           | FOpenErr => Some (RErr, w1)
           | _ =>
-          match alookup id (w_inner w1) with
+          match alookup id (inner_view intx w1) with
           | None => Some (RNotFound, w1)
           | Some data0 =>
               let trunc := match f with FReadFail k => k <? length data0 | _ => false end in
@@ -560,6 +597,27 @@ Definition part_open (h : nat) (id : bytes) (f : fault) (w : world) : option (re
           end
           end
       end
+  end.
+
+Definition part_open (h : nat) (id : bytes) (f : fault) (w : world) : option (res * world) := part_open_in false h id f w.
+
+(* the cache part store's OnAfterCommit hooks of one transaction, in registration order *)
+Fixpoint commit_hooks (ops : list txop) (w : world) : option world :=
+  match ops with
+  | [] => Some w
+  | TxPut id v :: rest =>
+      if length v <=? w_maxpart w then
+        let w2 := clear_hint id w in
+        match c_set id v (Z.of_nat (length v)) None (w_c w2) with
+        | None => None
+        | Some c => commit_hooks rest (set_c c w2)
+        end
+      else
+        let w2 := mark_hint id w in
+        commit_hooks rest (set_c (c_remove id (w_c w2)) w2)
+  | TxDel id :: rest =>
+      let w2 := clear_hint id w in
+      commit_hooks rest (set_c (c_remove id (w_c w2)) w2)
   end.
 
 (* one step; None = panic *)
@@ -688,6 +746,37 @@ Definition step1 (o : op) (w : world) : option (res * world) :=
         Some (ROk, set_c (c_remove id (w_c w2)) w2)
   | PGetF _ _ => Some (RBad, w)   (* handled by [step] *)
   | PGetClose _ _ => Some (RBad, w)
+  | PGetTx _ => Some (RBad, w)
+  | PGetCloseTx _ _ => Some (RBad, w)
+  | TBegin =>
+      match w_tx w with
+      | Some _ => Some (RBad, w)
+      | None => Some (ROk, set_tx (Some []) w)
+      end
+  | TPutTx id v =>
+      match w_tx w with
+      | None => Some (RBad, w)
+      | Some ops => Some (ROk, set_tx (Some (ops ++ [TxPut id v])) w)
+      end
+  | TDelTx id =>
+      match w_tx w with
+      | None => Some (RBad, w)
+      | Some ops => Some (ROk, set_tx (Some (ops ++ [TxDel id])) w)
+      end
+  | TCommit =>
+      match w_tx w with
+      | None => Some (RBad, w)
+      | Some ops =>
+          match commit_hooks ops (set_tx None (set_inner (apply_txops ops (w_inner w)) w)) with
+          | None => None
+          | Some w' => Some (ROk, w')
+          end
+      end
+  | TRollback =>
+      match w_tx w with
+      | None => Some (RBad, w)
+      | Some _ => Some (ROk, set_tx None w)
+      end
   | PGet id => Some (RBad, w)   (* handled by [step] *)
   end.
 
@@ -721,6 +810,34 @@ Definition step (o : op) (w : world) : option (res * world) :=
           end
       | Some (r, w1) => Some (r, w1)
       end
+  | PGetTx id =>
+      match w_tx w with
+      | None => Some (RBad, w)
+      | Some _ =>
+          match part_open_in true tmp_handle id FNone w with
+          | None => None
+          | Some (ROpen _, w1) => step1 (OFinish tmp_handle) w1
+          | Some (r, w1) => Some (r, w1)
+          end
+      end
+  | PGetCloseTx id n =>
+      match w_tx w with
+      | None => Some (RBad, w)
+      | Some _ =>
+          match part_open_in true tmp_handle id FNone w with
+          | None => None
+          | Some (ROpen _, w1) =>
+              match step1 (ORead tmp_handle n) w1 with
+              | None => None
+              | Some (r, w2) =>
+                  match step1 (OClose tmp_handle) w2 with
+                  | None => None
+                  | Some (_, w3) => Some (r, w3)
+                  end
+              end
+          | Some (r, w1) => Some (r, w1)
+          end
+      end
   | _ => step1 o w
   end.
 
@@ -739,6 +856,7 @@ Fixpoint run (ops : list op) (w : world) : option (list res) :=
    op    : comma separated fields, first = letter. Values travel as (vid,len): byte i = (37*vid+11*i+1) mod 251.
            S,k,vid,len,hint  E,k,vid,len,n,hint  G,k  X,k  O,h,k  B,s,k,vid,len,hint  W,s,n  Z,s  Y,s
            R,h,n  F,h  C,h   P,id,vid,len  I,id,vid,len  D,id  Q,h,id  T,id
+           real inner stores (first token mF|mS|fF|fS): TB  TP,id,vid,len  TD,id  TC  TR  Tt,id  Ttc,id,n  (+ the readers Q R F C T Tc)
            faults: Q,h,id,<n|e|r<k>|s<j>>  Tr,id,k  Ts,id,j  Te,id  Tc,id,n  Pf,id,vid,len  Df,id  Ps,id,vid,len,j
            hint = decimal or "m" for -1
    output: PANIC | results joined by ';' : ok bad miss nf  V<hex>  o<kind> ; T prints like F *)
@@ -766,6 +884,9 @@ Definition parse_fault (t : bytes) : option fault :=
 
 Definition parse_op (t : bytes) : option op :=
   match split_on ","%byte t with
+  | [c] =>
+      if bytes_eqb c B"TB" then Some TBegin else if bytes_eqb c B"TC" then Some TCommit
+      else if bytes_eqb c B"TR" then Some TRollback else None
   | [c; a1] =>
       if bytes_eqb c B"G" then Some (OGet a1)
       else if bytes_eqb c B"X" then Some (ORemove a1)
@@ -776,6 +897,8 @@ Definition parse_op (t : bytes) : option op :=
       else if bytes_eqb c B"D" then Some (PDelete a1)
       else if bytes_eqb c B"T" then Some (PGet a1)
       else if bytes_eqb c B"Te" then Some (PGetF a1 FOpenErr)
+      else if bytes_eqb c B"TD" then Some (TDelTx a1)
+      else if bytes_eqb c B"Tt" then Some (PGetTx a1)
       else if bytes_eqb c B"Df" then Some (PDeleteFail a1)
       else None
   | [c; a1; a2] =>
@@ -786,9 +909,11 @@ Definition parse_op (t : bytes) : option op :=
       else if bytes_eqb c B"Tr" then let? k := parse_nat a2 in Some (PGetF a1 (FReadFail k))
       else if bytes_eqb c B"Ts" then let? j := parse_nat a2 in Some (PGetF a1 (FStoreFail j))
       else if bytes_eqb c B"Tc" then let? n := parse_nat a2 in Some (PGetClose a1 n)
+      else if bytes_eqb c B"Ttc" then let? n := parse_nat a2 in Some (PGetCloseTx a1 n)
       else None
   | [c; a1; a2; a3] =>
       if bytes_eqb c B"P" then let? vid := parse_N a2 in let? len := parse_N a3 in Some (PPut a1 (content vid len))
+      else if bytes_eqb c B"TP" then let? vid := parse_N a2 in let? len := parse_N a3 in Some (TPutTx a1 (content vid len))
       else if bytes_eqb c B"Pf" then let? vid := parse_N a2 in let? len := parse_N a3 in Some (PPutFail a1 (content vid len))
       else if bytes_eqb c B"Q" then let? h := parse_nat a1 in let? f := parse_fault a3 in Some (POpenF h a2 f)
       else if bytes_eqb c B"I" then let? vid := parse_N a2 in let? len := parse_N a3 in Some (PInner a1 (content vid len))
@@ -821,8 +946,32 @@ Definition parse_policy (t : bytes) : option policy :=
       else None
   | [] => None
   end.
-Definition parse_kind (t : bytes) : option pkind :=
-  if bytes_eqb t B"m" then Some PMem else if bytes_eqb t B"f" then Some PFs else None.
+(* persistor letter, optionally followed by the real inner store: F(ilesystem) | S(ql) *)
+Definition parse_kind (t : bytes) : option (pkind * ikind) :=
+  match t with
+  | [c] => if beqb c "m"%byte then Some (PMem, IDouble) else if beqb c "f"%byte then Some (PFs, IDouble) else None
+  | [c; i] =>
+      match (if beqb c "m"%byte then Some PMem else if beqb c "f"%byte then Some PFs else None),
+            (if beqb i "F"%byte then Some IFs else if beqb i "S"%byte then Some ISql else None) with
+      | Some k, Some ik => Some (k, ik)
+      | _, _ => None
+      end
+  | _ => None
+  end.
+
+(* operations that exist only with the double / only with a real inner store *)
+Definition double_only (o : op) : bool :=
+  match o with
+  | PPut _ _ | PInner _ _ | PDelete _ | PPutFail _ _ | PDeleteFail _ | PPutStoreFail _ _ _ => true
+  | POpenF _ _ FNone | PGetF _ FNone => false
+  | POpenF _ _ _ | PGetF _ _ => true
+  | _ => false
+  end.
+Definition real_only (o : op) : bool :=
+  match o with
+  | TBegin | TPutTx _ _ | TDelTx _ | TCommit | TRollback | PGetTx _ | PGetCloseTx _ _ => true
+  | _ => false
+  end.
 
 Definition show_res (r : res) : bytes :=
   match r with
@@ -836,9 +985,10 @@ Definition show_res (r : res) : bytes :=
 Definition run_line (l : bytes) : bytes :=
   match tokens l with
   | [kd; pl; mp; ops] =>
-      do kd <- parse_kind kd; do pl <- parse_policy pl; do mp <- parse_nat mp;
+      do kdi <- parse_kind kd; do pl <- parse_policy pl; do mp <- parse_nat mp;
       do ops <- mapM parse_op (split_on ";"%byte ops);
-      match run ops (w_init kd pl mp) with
+      if match snd kdi with IDouble => existsb real_only ops | _ => existsb double_only ops end then parse_error else
+      match run ops (w_init_i (fst kdi) pl mp (snd kdi)) with
       | None => B"PANIC"
       | Some rs => join B";" (map show_res rs)
       end
